@@ -571,7 +571,13 @@ def step(env, spec):
                 except Exception:  # noqa
                     pass
             for n_ in allocated:
-                env.owners[(spec["si"], n_)] = frozenset(secs)
+                if len(secs) == 1:
+                    env.owners[(spec["si"], n_)] = frozenset(secs)
+                else:
+                    # allocated with two different upload-secret headers: which one counts is not
+                    # fixed by the statement, so this upload is not judged by C0/C (invariant I
+                    # then falls back to the secret in the server's own table)
+                    env.owners.pop((spec["si"], n_), None)
         elif (spec["route"] == "write" and code == 201) or (spec["route"] == "abort" and code == 200):
             env.owners.pop(target, None)
     outcome = "%s:%s:%s:%d%s" % (cls, spec["route"] if is_route else "wrong-method", secname, code, ":changed" if changed else "")
@@ -687,7 +693,7 @@ def run(tier, seed):
     modes = ["full", "reduced"] if tier == "quick" else ["full", "full", "reduced"]
     if os.environ.get("VERIF_MAXDEPTH"):      # development / detection demos only: fewer BFS levels
         modes = modes[:int(os.environ["VERIF_MAXDEPTH"])]
-    max_states = 600 if tier == "quick" else 1500
+    max_states = 5000 if tier == "quick" else 1500
     total = common.Result()
     seen = {}
     frontier = []
